@@ -67,6 +67,7 @@ def main():
     import signal
     limit = float(os.environ.get('PI2_REQ_TIMEOUT', '300'))
     signal.signal(signal.SIGALRM, _alarm)
+    n_timeouts = 0
     # answers are written one by one to the REAL stdout (a single write of more than 2 GiB is cut short by the kernel);
     # whatever the code under test prints goes to stderr
     real_out = sys.stdout
@@ -81,6 +82,9 @@ def main():
                 signal.setitimer(signal.ITIMER_REAL, 0)
         except RequestTimeout:
             ans = '(timeout)'
+            n_timeouts += 1
+            if n_timeouts >= 8:
+                limit = min(limit, 5.0)      # the code under test hangs systematically: do not spend the whole budget waiting
         except RecursionError:
             ans = 'fuel'
         except AssertionError as e:
